@@ -38,7 +38,9 @@ def mk_prim(h, spec):
             enum = {"tp": h.MosType if cls == "Mos" else h.primitives.BipolarType, "family": h.MosFamily, "vth": h.MosVth}[k]
             kw[k] = enum[kw[k]]
     for k in ("w", "l"):
-        if k in kw:
+        if k in kw and isinstance(kw[k], (list, tuple)):
+            kw[k] = h.Literal(kw[k][1])  # a size given as an expression of netlist parameters
+        elif k in kw:
             kw[k] = Fraction(kw[k]).numerator / Fraction(kw[k]).denominator * h.prefix.µ if False else h.Prefixed(number=kw[k], prefix=h.prefix.Prefix.MICRO)
     prim = {"Mos": h.Mos, "Res2": h.PhysicalResistor, "Res3": h.ThreeTerminalResistor, "Cap2": h.PhysicalCapacitor, "Cap3": h.ThreeTerminalCapacitor,
             "Diode": h.Diode, "Bipolar": h.primitives.Bipolar}[cls]
@@ -191,7 +193,7 @@ def _one(item):
             # a device without any width-like parameter has a fixed width (documented for the Sky130 precision resistors)
             if dim == "w" and not any(f.lower() in ("w", "width", "r_width", "c_width") or "wid" in f.lower() or f.lower().endswith("w") for f in fields):
                 continue
-            if dim in spec[1]:
+            if dim in spec[1] and not isinstance(spec[1][dim], (list, tuple)):
                 try:
                     other = dict(spec[1])
                     other[dim] = str(float(Fraction(spec[1][dim]) + Fraction(5, 4)))
@@ -276,9 +278,27 @@ def check_params(pdk, spec, call):
     cls, kw = spec
     p = call.params
     get = (lambda k: p.get(k)) if isinstance(p, dict) else (lambda k: getattr(p, k, None))
+    # sizes given as expressions: the device gets an expression worth the same, or 1e6 times it (metres -> microns)
+    for k in ("w", "l"):
+        if isinstance(kw.get(k), (list, tuple)):
+            long = "width" if k == "w" else "length"
+            v = next((get(f) for f in (k, "r_" + long, "c_" + long) if get(f) is not None), None)
+            if v is None:
+                continue  # the device has no such parameter (fixed width)
+            if not isinstance(v, h.Literal):
+                return f"given {k}={kw[k][1]!r} reached the device as {v!r}"
+            env = dict(wbase=1e-6, dw=2e-6, __builtins__={})
+            try:
+                got, want = eval(v.text, dict(env)), eval(kw[k][1], dict(env))
+            except Exception as e:
+                return f"given {k}={kw[k][1]!r} reached the device as {v!r}"
+            if not any(abs(got - want * f) <= 1e-9 * abs(want * f) for f in (1, 1e6)):
+                return f"given {k}={kw[k][1]!r} reached the device as {v.text!r}, worth {got:g} instead of {want:g} (or {want * 1e6:g})"
     if cls == "Mos":
         for k in ("w", "l"):
             v = get(k)
+            if isinstance(kw.get(k), (list, tuple)):
+                continue
             if k in kw:
                 want = Fraction(kw[k]) / 10**6
                 if v is None or not isinstance(v, h.Prefixed) or Fraction(v.number) * Fraction(10) ** v.prefix.value != want:
@@ -296,7 +316,7 @@ def check_params(pdk, spec, call):
             v = get("nf")
             if v is None or val(v) != kw["nf"]:
                 return f"nf {kw['nf']} reached the device as {v!r}"
-    if pdk == "sky130" and cls in ("Res2", "Res3") and "_PREC_" in kw.get("model", "") and "l" in kw:
+    if pdk == "sky130" and cls in ("Res2", "Res3") and "_PREC_" in kw.get("model", "") and "l" in kw and not isinstance(kw["l"], (list, tuple)):
         # documented: precision resistors have a fixed width and take their length in microns
         v = get("l")
         got = Fraction(v.number) * Fraction(10) ** v.prefix.value if isinstance(v, h.Prefixed) else v
@@ -337,6 +357,15 @@ def items_for(tier):
                             out.append((pdk, (cls, dict(kw, mult="3")), "once"))
                     if cls == "Bipolar":
                         out.append((pdk, (cls, dict(kw, mult=3)), "once"))
+        # sizes given as Literal expressions (Sky130 and GF180 document the scaling of sizes to microns)
+        if pdk in ("sky130", "gf180"):
+            for r in g.get("mos", [])[:3]:
+                if r["terminals"] == 4:
+                    out.append((pdk, ("Mos", {"model": r["key"], "w": ("lit", "wbase + dw"), "l": ("lit", "wbase")}), "once"))
+            for table, cls in (("res", "Res2"), ("res", "Res3"), ("cap", "Cap2"), ("cap", "Cap3")):
+                for r in g.get(table, []):
+                    if r["terminals"] == {"Res2": 2, "Res3": 3, "Cap2": 2, "Cap3": 3}[cls]:
+                        out.append((pdk, (cls, {"model": r["key"], "w": ("lit", "wbase + dw"), "l": ("lit", "dw - wbase")}), "once"))
         # unknown model names
         if pdk in ("sky130", "gf180"):  # the PDKs that document selection by model name
             for cls in ("Mos", "Res2", "Cap3", "Diode", "Bipolar"):
